@@ -58,7 +58,21 @@ def _frac_term(r, g, targets=None, nobj=None, names=None):
         b = _bracket(r, occ, virt)
         if b is not None and len(b['e']) >= 2:
             objs.append(b)
-    if r.random() < 0.6 and idxs:
+    brs = [o for o in objs if o['t'] == 'br']
+    if brs and r.random() < 0.35:
+        # numerator = sum_k n_k * (bracket_k): cancels against several brackets,
+        # each with its own rescaling
+        coef = {}
+        for b in brs:
+            nk = r.choice([1, 1, 2, 2, 3])
+            if r.random() < 0.2:
+                nk = -nk
+            for c, s_ in b['e']:
+                coef[s_] = coef.get(s_, 0) + nk * int(c)
+        num = [[str(v), s_] for s_, v in coef.items() if v]
+        if num:
+            objs.append({'t': 'br', 'e': num, 'exp': 1})
+    elif r.random() < 0.6 and idxs:
         k = r.randint(1, min(4, len(idxs)))
         num = [[r.choice(['1', '-1', '1', '-1', '2', '1/2', '-3']), s]
                for s in r.sample(idxs, k)]
